@@ -156,6 +156,9 @@ def check(chk, repo):
     for cls in ("SupervisedOPF", "SemiSupervisedOPF"):
         _, comps = competitions_of(repo, cls, "fit", 2)
         check_removal_bookkeeping(rep, f"{cls}:", comps[-1])
+    # the order scanned is sorted by cost only if the queue that produced it returns minima
+    from ..rules_heap import check_heap
+    check_heap(rep, repo, "HEAP-")
     chk.floor("best-so-far scans in SupervisedOPF.predict", len(scans), 1)
     chk.undecided.append("equality with the exhaustive scan as a semantic fact (needs sortedness, implied by C01)")
     chk.assumptions.append("idx_nodes is sorted by non-decreasing cost (C01 removal rule) and has n_nodes entries")
